@@ -139,6 +139,71 @@ CF_INNER_INV = """                invariant
                         borrowed_struct_lifetime_map@.contains((d, m)) == (map0.contains((d, m)) || (m == @O@ && want_field_pair(link.pairs@, oi + 1, it.index@ as int, d, m))),"""
 
 
+def build_new_fragment(vf, src):
+    """E15 + E7: the `let borrow_map = used_method_lifetimes.iter().map(|lt| (..)).collect();` statement of BorrowingParamVisitor::new"""
+    it = src.item("impl BorrowingParamVisitor<'tcx>::new", "fn")
+    cls = it.get("closures", [])
+    st = None
+    for (a, b) in it["stmts"]:
+        if src.slice(a, b).startswith("let borrow_map"):
+            st = (a, b)
+    if st is None or len(cls) != 1 or not (st[0] <= cls[0]["start"] and cls[0]["end"] <= st[1]):
+        raise Undecided("anchor-lost", "BorrowingParamVisitor::new: `let borrow_map = <set>.iter().map(|lt| ..).collect();` not found")
+    c0, c1 = cls[0]["start"], cls[0]["end"]
+    head = src.slice(st[0], c0)
+    tail = src.slice(c1, st[1])
+    mh = re.fullmatch(r"let borrow_map = (\w+)\s*\.iter\(\)\s*\.map\(", head)
+    ctext = src.slice(c0, c1)
+    mc = re.match(r"\|\s*(\w+)\s*\|\s*\{", ctext)
+    if not mh or not mc or not re.fullmatch(r"\s*\)\s*\.collect\(\);", tail):
+        raise Undecided("anchor-lost", "BorrowingParamVisitor::new: the borrow_map statement is no longer `<set>.iter().map(|lt| {..}).collect()`")
+    setname, lt = mh.group(1), mc.group(1)
+    body_open = c0 + ctext.index("{")
+    frag = {"start": body_open, "after_attrs": body_open, "end": c1, "path": it["path"] + "#let borrow_map (closure body)", "loops": []}
+    pc = Piece(src, frag)
+    org = {"file": F, "item": frag["path"], "line": src.line_of(st[0]), "end_line": src.line_of(st[1])}
+    vf.add(f"""// E15 + E7: `let borrow_map = {setname}.iter().map(|{lt}| BODY).collect();` of BorrowingParamVisitor::new as a function of what it reads;
+// the map/collect over the BTreeSet is desugared to a loop over its members in ascending order pushing (key, value) entries
+fn new_borrow_map<'tcx>({setname}: &BTreeSet<Lifetime>, method: &'tcx MethodStub) -> (borrow_map: EntryMap<Lifetime, BorrowedLifetimeInfo<'tcx>>)
+    ensures {CANARY}
+        // one entry per used method lifetime, in key order, no edges yet, and all_longer_lifetimes == the closure along the `longer` direction
+        forall|l: Lifetime| {setname}@.contains(l) <==> exists|i: int| 0 <= i < borrow_map.entries@.len() && #[trigger] borrow_map.entries@[i].k == l,
+        forall|i: int, j: int| 0 <= i < j < borrow_map.entries@.len() ==> borrow_map.entries@[i].k.0 < borrow_map.entries@[j].k.0,
+        forall|i: int| 0 <= i < borrow_map.entries@.len() ==> (#[trigger] borrow_map.entries@[i]).v.incoming_edges@.len() == 0
+            && borrow_map.entries@[i].v.all_longer_lifetimes@ == closure_set(&method.lifetime_env, true, borrow_map.entries@[i].k),
+{{
+    let mut borrow_map: EntryMap<Lifetime, BorrowedLifetimeInfo<'tcx>> = EntryMap::new();
+    let keys__ = {setname}.members();
+    for {lt} in it: keys__.iter()
+        invariant
+            borrow_map.entries@.len() == it.index@,
+            forall|i: int| 0 <= i < it.index@ ==> (#[trigger] borrow_map.entries@[i]).k == keys__@[i] && borrow_map.entries@[i].v.incoming_edges@.len() == 0
+                && borrow_map.entries@[i].v.all_longer_lifetimes@ == closure_set(&method.lifetime_env, true, keys__@[i]),
+    {{
+        let (k__, v__) = """, origin=org)
+    vf.add(pc.render(), origin=org, edits=pc.log)
+    vf.add(""";
+        borrow_map.entries.push(MapEntry { k: k__, v: v__ });
+    }
+    proof {
+        assert(borrow_map.entries@.len() == keys__@.len());
+        assert forall|l: Lifetime| """ + setname + """@.contains(l) implies exists|i: int| 0 <= i < borrow_map.entries@.len() && #[trigger] borrow_map.entries@[i].k == l by {
+            let i = choose|i: int| 0 <= i < keys__@.len() && #[trigger] keys__@[i] == l;
+            assert(borrow_map.entries@[i].k == l);
+        }
+        assert forall|l: Lifetime| (exists|i: int| 0 <= i < borrow_map.entries@.len() && #[trigger] borrow_map.entries@[i].k == l) implies """ + setname + """@.contains(l) by {
+            let i = choose|i: int| 0 <= i < borrow_map.entries@.len() && #[trigger] borrow_map.entries@[i].k == l;
+            assert(keys__@[i] == l);
+        }
+    }
+    borrow_map
+}
+""", origin=org)
+    vf.functions.append({"path": it["path"] + "#let borrow_map", "file": F, "line": src.line_of(st[0]), "end_line": src.line_of(st[1]), "engine": "verus",
+                         "mode": "verus (statement fragment, E15/E7)", "bound": "none"})
+    vf.expected.append("new_borrow_map")
+
+
 def build(tier):
     vf = VerusFile(NAME)
     src = Src(F)
@@ -213,17 +278,18 @@ def build(tier):
     p.contract(CF_CONTRACT.replace("/*CANARY*/", CANARY), ret_name="r")
     vf.add_piece(p, expected="compute_for_struct_field")
     vf.add("}\n")
+    build_new_fragment(vf, src)
     vf.add(vhelp.FOOTER)
     vf.expected += ["lemma_want_inner_step", "lemma_want_pairs_step"]
     return vf
 
 
-CANARY_FUNCTIONS = ["visit_param", "compute_for_struct_field"]
+CANARY_FUNCTIONS = ["visit_param", "compute_for_struct_field", "new_borrow_map"]
 ASSUMPTIONS = [
     "E3: std BTreeMap<Lifetime, BorrowedLifetimeInfo> carried as the vector of its entries in key order (EntryMap); BTreeSet as an abstract set with contains()/is_empty(); BTreeMap<Lifetime, BTreeSet<Lifetime>> as the set of its (key, member) pairs",
     "E7: `for (k, v) in &mut map` / `for v in map.values_mut()` desugared to an index loop borrowing `&mut entries[i]` (same elements, same order, same mutable access)",
     "E11: Type::lifetimes() and LinkedLifetimes::lifetimes_def_only() (iterators consumed by `for`) carried as the Vec of their items; what they yield is abstract here (lts_of / link.pairs) — unit linked_lifetimes checks the pairs are positional",
     "hir::Type re-declared (Slice / Opaque / Struct / DiplomatOption / other); StructPath::link_lifetimes, Type::is_option abstract functions of their arguments",
-    "all_longer_lifetimes of each entry is taken as given: BorrowingParamVisitor::new fills it from LifetimeEnv::all_longer_lifetimes (closure proved in unit hir_transitivity; the collect() into the BTreeSet is not under contract)",
+    "BorrowingParamVisitor::new: only the `let borrow_map = ..` statement is under contract (E15), with the set iteration / map / collect desugared (E7) and LifetimeEnv::all_longer_lifetimes / all_shorter_lifetimes + collect() abstract: direction flag and start node as proved for the real wrappers in unit hir_transitivity, collect() == the closure by that unit's driver theorem (trusted link between the two units)",
 ]
-UNVERIFIED = {"C04": ["BorrowingParamVisitor::new (BTreeSet iterator map/collect)", "add_slices_to_used_lifetimes", "BorrowingFieldVisitor", "backends' rendering of the edges"], "C15": []}
+UNVERIFIED = {"C04": ["the rest of BorrowingParamVisitor::new (force_include_slices)", "add_slices_to_used_lifetimes", "BorrowingFieldVisitor", "backends' rendering of the edges"], "C15": []}
